@@ -147,3 +147,50 @@ Proof.
            xml_shape_all xml_no_eof_all
            (run_nobom xml_flavour xml_table simd ent c1 sk) inj_nobom fuel inj cs1 cs2 m HJ HB).
 Qed.
+
+(* ... including the byte order mark: from a machine with an empty queue, whatever its discard_bom flag, as long as
+   neither chunking starts with a chunk that is the mark alone *)
+Theorem html_drive_chunking_independent_bom :
+  forall simd ent c1 sk fuel inj cs1 cs2 (m : mach hstate (list N)),
+  mq m = [] ->
+  all_nonempty cs1 -> all_nonempty cs2 -> cs1 <> [] -> cs2 <> [] -> concat cs1 = concat cs2 ->
+  hd [] cs1 <> [BOM] -> hd [] cs2 <> [BOM] ->
+  all_done (tl (snd (drive_flat html_flavour true html_table simd ent c1 sk fuel inj cs1 m []))) ->
+  all_done (tl (snd (drive_flat html_flavour true html_table simd ent c1 sk fuel inj cs2 m []))) ->
+  fst (drive_flat html_flavour true html_table simd ent c1 sk fuel inj cs1 m []) =
+  fst (drive_flat html_flavour true html_table simd ent c1 sk fuel inj cs2 m []) /\
+  hd SSuspend (snd (drive_flat html_flavour true html_table simd ent c1 sk fuel inj cs1 m [])) =
+  hd SSuspend (snd (drive_flat html_flavour true html_table simd ent c1 sk fuel inj cs2 m [])).
+Proof.
+  intros simd ent c1 sk fuel inj cs1 cs2 m Hq.
+  exact (drive_chunking_independent_bom html_flavour html_table simd ent c1 sk (fun _ => True)
+           (html_Hrun simd ent c1 sk) (fun _ _ _ => I) (fun _ _ _ => I) html_shape_all html_no_eof_all
+           (run_nobom html_flavour html_table simd ent c1 sk) inj_nobom (fun _ _ => I) (fun _ _ _ => I)
+           fuel inj cs1 cs2 m I Hq).
+Qed.
+
+Lemma J_clear {S} (tb : table S) (m : mach S (list N)) : J tb m -> J tb (clear_bom m).
+Proof. destruct m as [cf q o k]; destruct cf; exact (fun H => H). Qed.
+Lemma J_took {S} (tb : table S) n (m : mach S (list N)) : J tb m -> J tb (took n m).
+Proof. destruct m; exact (fun H => H). Qed.
+
+Theorem xml_drive_chunking_independent_bom :
+  forall simd ent c1 sk fuel inj cs1 cs2 (m : mach xstate (list N)),
+  J xml_table m -> mq m = [] ->
+  all_nonempty cs1 -> all_nonempty cs2 -> cs1 <> [] -> cs2 <> [] -> concat cs1 = concat cs2 ->
+  hd [] cs1 <> [BOM] -> hd [] cs2 <> [BOM] ->
+  all_done (tl (snd (drive_flat xml_flavour true xml_table simd ent c1 sk fuel inj cs1 m []))) ->
+  all_done (tl (snd (drive_flat xml_flavour true xml_table simd ent c1 sk fuel inj cs2 m []))) ->
+  fst (drive_flat xml_flavour true xml_table simd ent c1 sk fuel inj cs1 m []) =
+  fst (drive_flat xml_flavour true xml_table simd ent c1 sk fuel inj cs2 m []) /\
+  hd SSuspend (snd (drive_flat xml_flavour true xml_table simd ent c1 sk fuel inj cs1 m [])) =
+  hd SSuspend (snd (drive_flat xml_flavour true xml_table simd ent c1 sk fuel inj cs2 m [])).
+Proof.
+  intros simd ent c1 sk fuel inj cs1 cs2 m HJ Hq.
+  exact (drive_chunking_independent_bom xml_flavour xml_table simd ent c1 sk (J xml_table)
+           (xml_run_is_relation simd ent c1 sk)
+           (fun x m0 H0 => proj1 (J_ext xml_table simd ent x m0) H0) (fun i m0 H0 => J_inj xml_table i m0 H0)
+           xml_shape_all xml_no_eof_all
+           (run_nobom xml_flavour xml_table simd ent c1 sk) inj_nobom (J_clear xml_table) (J_took xml_table)
+           fuel inj cs1 cs2 m HJ Hq).
+Qed.
